@@ -174,7 +174,23 @@ void pbt_property(Ctx &c) {
         Scenario sc; int type = FAMILY[fam][a.draw(2)]; int F = 1 + (int)a.draw(2);
         if (!gen_scenario(a, sc, type, 2, F)) continue;
         Noise n = gen_noise(a, F);
-        add_noise(a, sc, n, outlier ? (int)a.draw(sc.stds.size()) : -1);
+        int victim = -1;
+        if (outlier) {
+            // the displaced standard must be REDUNDANT (the rest still determines the terms, with every leakage
+            // cell still sampled); otherwise its error is absorbed by the terms only it determines and no
+            // consistency test can see it
+            std::vector<int> cand;
+            for (size_t s = 0; s < sc.stds.size(); s++) {
+                Scenario rest = sc; rest.stds.erase(rest.stds.begin() + s);
+                bool ok = leakage_uncovered(rest).empty();
+                for (int f = 0; ok && f < sc.F; f++) ok = ident_at(rest, f).determining;
+                auto eq = count_equations(rest, rest.stds.size()); for (int e : eq) if (e < unknowns_per_system(rest) + 1) ok = false;
+                if (ok) cand.push_back((int)s);
+            }
+            if (cand.empty()) continue;
+            victim = cand[a.draw(cand.size())];
+        }
+        add_noise(a, sc, n, victim);
         std::string msg; int err; bool mcb = false;
         int rc = solve(c, sc, &n, alpha, nullptr, msg, err, &mcb);
         done++;
